@@ -71,6 +71,8 @@ def cases(draw):
     letters = {"G0": "XYZEF", "G1": "XYZEF", "G2": "XYZEFIJ", "G3": "XYZEFIJ", "G92": "XYZE", "G28": "XYZ"}[code]
     if code in ("G0", "G1", "G92", "G28"):
         letters += "SP"       # letters the handler must ignore
+    if code == "G28":
+        letters += "OW"       # (home-if-needed / without-mesh flags of other firmwares: no business of the tracked position)
     ws = draw(st.lists(word(letters), min_size=0, max_size=7))
     if code in ("G0", "G1", "G2", "G3") and draw(st.integers(0, 3)) == 0:
         # every axis letter once (in any order), then repetitions: the last value must win wherever it stands
